@@ -1823,8 +1823,9 @@ theorem takeWhile_all {p : Char → Bool} : ∀ s : Str, (∀ c ∈ s, p c = tru
     simp only [List.takeWhile, h c (by simp)]
     rw [takeWhile_all cs (fun x hx => h x (by simp [hx]))]
 
-/-- the reference `$(name)` followed by text without `$` and `)`: exactly this reference is matched -/
-theorem reMatch_ref (name post : Str) (hn : name ≠ []) (hn1 : ∀ c ∈ name, c ≠ '$' ∧ c ≠ ')')
+/-- the reference `$(name)` (any name without `$`: it may contain `)`, `(`, blanks, quotes) followed by text
+without `$` and `)`: exactly this reference is matched -/
+theorem reMatch_ref (name post : Str) (hn : name ≠ []) (hn1 : ∀ c ∈ name, c ≠ '$')
     (hp : ∀ c ∈ post, c ≠ '$' ∧ c ≠ ')') :
     reMatch macroPre ')' (macroPre ++ name ++ [')'] ++ post) = some (name.length + 3, name) := by
   unfold reMatch
@@ -1840,7 +1841,7 @@ theorem reMatch_ref (name post : Str) (hn : name ≠ []) (hn1 : ∀ c ∈ name, 
     intro c hc
     simp only [List.mem_append, List.mem_cons] at hc
     rcases hc with hc | hc | hc
-    · simpa using (hn1 c hc).1
+    · simpa using hn1 c hc
     · subst hc; decide
     · simpa using (hp c hc).1
   rw [htw]
@@ -1856,7 +1857,7 @@ theorem reMatch_ref (name post : Str) (hn : name ≠ []) (hn1 : ∀ c ∈ name, 
 
 /-- `macroRe.FindAllStringSubmatch` on `pre $(name) post` finds the one reference -/
 theorem macroMatches_embedded (pre name post : Str) (hpre : ∀ c ∈ pre, c ≠ '$') (hn : name ≠ [])
-    (hn1 : ∀ c ∈ name, c ≠ '$' ∧ c ≠ ')') (hp : ∀ c ∈ post, c ≠ '$' ∧ c ≠ ')') :
+    (hn1 : ∀ c ∈ name, c ≠ '$') (hp : ∀ c ∈ post, c ≠ '$' ∧ c ≠ ')') :
     macroMatches (pre ++ (macroPre ++ name ++ [')'] ++ post)) = [name] := by
   unfold macroMatches
   induction pre with
@@ -1940,13 +1941,13 @@ def valueInString (macros : List (Str × List Str)) (name : Str) : Str :=
   | some (v :: _) => v
   | _ => []
 
-/-- **An embedded reference is always substituted**: for every text `pre $(name) post` where `pre` has no
-`$` and `name`, `post` have neither `$` nor `)` (so that `$(name)` is the only reference the reader's
-syntax recognises), `expandSingleValueMacro` returns `pre value post` — `value` being empty when the
+/-- **An embedded reference is always substituted**: for every text `pre $(name) post` where `pre` and the
+non-empty `name` have no `$` and `post` has neither `$` nor `)` (so that `$(name)` is the only reference the
+reader's syntax recognises; the name itself may contain `)`, `(`, blanks, quotes — round 6), `expandSingleValueMacro` returns `pre value post` — `value` being empty when the
 macro is undefined or value-less — unless the macro has several values (an error).  Nothing of the
 reference is left. -/
 theorem C20_embedded_macro_expanded (macros : List (Str × List Str)) (l : Nat) (pre name post : Str)
-    (hpre : ∀ c ∈ pre, c ≠ '$') (hn : name ≠ []) (hn1 : ∀ c ∈ name, c ≠ '$' ∧ c ≠ ')')
+    (hpre : ∀ c ∈ pre, c ≠ '$') (hn : name ≠ []) (hn1 : ∀ c ∈ name, c ≠ '$')
     (hp : ∀ c ∈ post, c ≠ '$' ∧ c ≠ ')') (hone : ((lookup macros name).getD []).length ≤ 1) :
     expandSingleValueMacro macros l (pre ++ (macroPre ++ name ++ [')'] ++ post)) =
       .ok (pre ++ valueInString macros name ++ post) := by
@@ -1967,7 +1968,7 @@ theorem C20_embedded_macro_expanded (macros : List (Str × List Str)) (l : Nat) 
 
 /-- … and if the value has no `$` either, the result contains no `$(` at all -/
 theorem C20_embedded_macro_no_residue (macros : List (Str × List Str)) (l : Nat) (pre name post : Str)
-    (hpre : ∀ c ∈ pre, c ≠ '$') (hn : name ≠ []) (hn1 : ∀ c ∈ name, c ≠ '$' ∧ c ≠ ')')
+    (hpre : ∀ c ∈ pre, c ≠ '$') (hn : name ≠ []) (hn1 : ∀ c ∈ name, c ≠ '$')
     (hp : ∀ c ∈ post, c ≠ '$' ∧ c ≠ ')') (hone : ((lookup macros name).getD []).length ≤ 1)
     (hv : ∀ c ∈ valueInString macros name, c ≠ '$') :
     ∃ out, expandSingleValueMacro macros l (pre ++ (macroPre ++ name ++ [')'] ++ post)) = .ok out ∧
@@ -2011,7 +2012,7 @@ theorem hasInfix_mid (p : Str) : ∀ (a b : Str), hasInfix p (a ++ (p ++ b)) = t
 /-- the same at the level of `expandMacros`' argument loop: an argument `pre $(name) post` that is not
 a reference as a whole becomes the single argument `pre value post` -/
 theorem C20_embedded_macro_expandArgs (macros : List (Str × List Str)) (l : Nat) (pre name post : Str)
-    (hpre : ∀ c ∈ pre, c ≠ '$') (hn : name ≠ []) (hn1 : ∀ c ∈ name, c ≠ '$' ∧ c ≠ ')')
+    (hpre : ∀ c ∈ pre, c ≠ '$') (hn : name ≠ []) (hn1 : ∀ c ∈ name, c ≠ '$')
     (hp : ∀ c ∈ post, c ≠ '$' ∧ c ≠ ')') (hone : ((lookup macros name).getD []).length ≤ 1)
     (hwhole : isMacroRef (pre ++ (macroPre ++ name ++ [')'] ++ post)) = false) :
     expandArgs macros l [pre ++ (macroPre ++ name ++ [')'] ++ post)] =
@@ -2034,6 +2035,97 @@ example : (match expandSingleValueMacro [] 1 "pre-$(nope)-post".toList with | .o
     "pre--post".toList := by decide
 example : (match expandSingleValueMacro [("hostnme".toList, [])] 1 "/etc/$(hostnme)/x".toList with | .ok s => s | _ => ['?']) =
     "/etc//x".toList := by decide
+
+
+/-! ### Round 6: references that are the whole argument (any name), and `$` in a name inside a string -/
+
+theorem isMacroRef_ref (name : Str) : isMacroRef (macroPre ++ name ++ [')']) = true := by
+  unfold isMacroRef hasSuffixCh
+  have h : (macroPre ++ name ++ [')']).getLast? = some ')' := by simp
+  rw [h]
+  simp [macroPre, List.isPrefixOf]
+
+theorem slice_ref (name : Str) :
+    slice (macroPre ++ name ++ [')']) 2 ((macroPre ++ name ++ [')']).length - 1) = .ok name := by
+  unfold slice
+  have h1 : 2 ≤ (macroPre ++ name ++ [')']).length - 1 ∧
+      (macroPre ++ name ++ [')']).length - 1 ≤ (macroPre ++ name ++ [')']).length := by
+    simp [macroPre]
+  rw [if_pos h1]
+  have h2 : (macroPre ++ name ++ [')']).length - 1 = (macroPre ++ name).length := by simp [macroPre]
+  rw [h2, List.take_left']
+  · simp [macroPre]
+  · rfl
+
+/-- **A reference that is the whole argument is always substituted, whatever the name** — empty, with `$`,
+parentheses, blanks or quotes in it, declared or not: the argument `$(name)` becomes the values of the macro
+(no argument at all when it is not declared or has no value); the rest of the argument list is treated as
+if the reference were not there.  The reference itself is not copied. -/
+theorem C20_whole_arg_macro_expanded (macros : List (Str × List Str)) (l : Nat) (name : Str) (rest : List Str) :
+    expandArgs macros l ((macroPre ++ name ++ [')']) :: rest) =
+      (expandArgs macros l rest).bind (fun rest' => .ok ((lookup macros name).getD [] ++ rest')) := by
+  conv => lhs; unfold expandArgs
+  simp only [isMacroRef_ref, Bool.not_true, Bool.false_eq_true, if_false, slice_ref, bind, Res.bind, pure]
+  cases expandArgs macros l rest with
+  | ok rest' => cases lookup macros name <;> simp
+  | err k n => rfl
+  | panic => rfl
+  | fuel => rfl
+
+theorem C20_whole_arg_macro_alone (macros : List (Str × List Str)) (l : Nat) (name : Str) :
+    expandArgs macros l [macroPre ++ name ++ [')']] = .ok ((lookup macros name).getD []) := by
+  rw [C20_whole_arg_macro_expanded]
+  simp [expandArgs, Res.bind]
+
+/-- what `expandArgs` returns, `[["?"]]` for an error -/
+def argsOr (r : Res (List Str)) : List Str := match r with | .ok a => a | _ => [['?']]
+
+/-- the seeded change C20-7 in the model's terms: `$()`, `$($)` and a declared `$(dom$1)` as whole arguments -/
+example : argsOr (expandArgs [] 1 ["$()".toList, "tail".toList]) = ["tail".toList] := by decide
+example : argsOr (expandArgs [] 1 ["head".toList, "$($)".toList]) = ["head".toList] := by decide
+example : argsOr (expandArgs [("dom$1".toList, ["example.org".toList])] 1 ["$(dom$1)".toList]) = ["example.org".toList] := by decide
+example : argsOr (expandArgs [("a b".toList, ["x".toList, "y".toList])] 1 ["$(a b)".toList, "z".toList]) =
+    ["x".toList, "y".toList, "z".toList] := by decide
+
+/-- The full statement one would like for references inside a string: a reference to a DECLARED
+single-valued macro, surrounded by text without `$`, `(`, `)`, is replaced by the value. -/
+def C20_declared_macro_in_string_expanded_stmt : Prop :=
+  ∀ (macros : List (Str × List Str)) (l : Nat) (pre name post v : Str),
+    name ≠ [] → lookup macros name = some [v] →
+    (∀ c ∈ pre, c ≠ '$' ∧ c ≠ '(' ∧ c ≠ ')') → (∀ c ∈ post, c ≠ '$' ∧ c ≠ '(' ∧ c ≠ ')') →
+    expandSingleValueMacro macros l (pre ++ (macroPre ++ name ++ [')'] ++ post)) = .ok (pre ++ v ++ post)
+
+/-- It is FALSE for the code as it is (known finding KF-C20-1): `macroRe` excludes `$` from the names it
+recognises inside a string although declarations and whole-argument references accept it.
+`$(dom$1) = example.org`, `x user@$(dom$1)`: the argument is returned unchanged. -/
+theorem C20_dollar_name_in_string_left :
+    argsOr (expandArgs [("dom$1".toList, ["example.org".toList])] 1 ["user@$(dom$1)".toList]) = ["user@$(dom$1)".toList] := by
+  decide
+
+theorem C20_declared_macro_in_string_expanded_counterexample : ¬ C20_declared_macro_in_string_expanded_stmt := by
+  intro h
+  have h1 := h [("dom$1".toList, ["example.org".toList])] 1 "user@".toList "dom$1".toList [] "example.org".toList
+    (by decide) (by decide) (by decide) (by decide)
+  have h2 : (match expandSingleValueMacro [("dom$1".toList, ["example.org".toList])] 1
+      ("user@".toList ++ (macroPre ++ "dom$1".toList ++ [')'] ++ [])) with | .ok s => s | _ => ['?']) =
+      "user@".toList ++ "example.org".toList ++ [] := by rw [h1]
+  revert h2
+  decide
+
+/-- … and it holds for every name without `$` (the name may contain `)`, `(`, blanks, quotes). -/
+theorem C20_declared_macro_in_string_expanded_partial (macros : List (Str × List Str)) (l : Nat) (pre name post v : Str)
+    (hn : name ≠ []) (hn1 : ∀ c ∈ name, c ≠ '$') (hl : lookup macros name = some [v])
+    (hpre : ∀ c ∈ pre, c ≠ '$' ∧ c ≠ '(' ∧ c ≠ ')') (hp : ∀ c ∈ post, c ≠ '$' ∧ c ≠ '(' ∧ c ≠ ')') :
+    expandSingleValueMacro macros l (pre ++ (macroPre ++ name ++ [')'] ++ post)) = .ok (pre ++ v ++ post) := by
+  have := C20_embedded_macro_expanded macros l pre name post (fun c hc => (hpre c hc).1) hn hn1
+    (fun c hc => ⟨(hp c hc).1, (hp c hc).2.2⟩) (by simp [hl])
+  rw [this]
+  simp [valueInString, hl]
+
+example : (match expandSingleValueMacro [("a)b".toList, ["v".toList])] 1 "p$(a)b)q".toList with | .ok s => s | _ => ['?']) =
+    "pvq".toList := by decide
+example : (match expandSingleValueMacro [("a \"b(".toList, ["v".toList])] 1 "p$(a \"b()q".toList with | .ok s => s | _ => ['?']) =
+    "pvq".toList := by decide
 
 
 /-! ## Lexer: printing tokens in the quoted syntax and lexing them again -/
